@@ -477,6 +477,9 @@ def make_reference(modules: dict) -> dict:
         entry = {}
         for q, fn, nested in functions_with_qualnames(tree):
             entry[q] = [list(x) for x in signatures(fn, nested)]  # also functions without locals: a later temporary is then known to be new
+            c = comparisons_of(fn)
+            if c:
+                out.setdefault("__cmps__", {}).setdefault(modname, {})[q] = c
         if entry:
             out[modname] = entry
     return out
@@ -526,3 +529,48 @@ def known_locals(modname: str, qual: str) -> set:
             known |= {x[0] for x in lst}
             known.add(q.rsplit(".", 1)[-1].split("#")[0])
     return known
+
+
+# ------------------------------------------------------------------ orientation of comparisons
+
+_FLIPOP = {"Lt": "Gt", "Gt": "Lt", "LtE": "GtE", "GtE": "LtE", "Eq": "Eq", "NotEq": "NotEq"}
+
+
+def _cmp_key(n: ast.Compare):
+    if len(n.ops) != 1 or type(n.ops[0]).__name__ not in _FLIPOP:
+        return None
+    return (ast.dump(n.left), type(n.ops[0]).__name__, ast.dump(n.comparators[0]))
+
+
+def comparisons_of(fn) -> list:
+    out = []
+    for n in ast.walk(fn):
+        if isinstance(n, ast.Compare):
+            k = _cmp_key(n)
+            if k is not None and k[0] != k[2]:
+                out.append(hashlib.sha1("|".join(k).encode()).hexdigest()[:12])
+    return sorted(set(out))
+
+
+def orient_comparisons(tree: ast.Module, modname: str) -> None:
+    """`b > a` where the reference tree's function has `a < b`: written the reference's way (after the locals carry their
+    reference names).  Comparisons the reference does not have are left as written."""
+    ref = (reference().get("__cmps__") or {}).get(modname)
+    if not ref:
+        return
+    for q, fn, nested in functions_with_qualnames(tree):
+        known = set(ref.get(q) or ())
+        if not known:
+            continue
+        for n in ast.walk(fn):
+            if isinstance(n, ast.Compare):
+                k = _cmp_key(n)
+                if k is None:
+                    continue
+                h = hashlib.sha1("|".join(k).encode()).hexdigest()[:12]
+                if h in known:
+                    continue
+                sw = (k[2], _FLIPOP[k[1]], k[0])
+                if hashlib.sha1("|".join(sw).encode()).hexdigest()[:12] in known:
+                    n.left, n.comparators = n.comparators[0], [n.left]
+                    n.ops = [getattr(ast, _FLIPOP[k[1]])()]
